@@ -296,6 +296,14 @@ def direct_oracle(spec, c):
             st["calcs_after_redefinition"] = st.get("calcs_after_redefinition", 0) + 1
         if b["sim"] >= 100000:
             st["calcs_in_later_run"] = st.get("calcs_in_later_run", 0) + 1
+        if stg >= 1 and stg - 1 < len(spec["stages"]):
+            sg_ = spec["stages"][stg - 1]
+            if sg_.get("run_cells"):
+                st["calcs_by_run_cells"] = st.get("calcs_by_run_cells", 0) + 1
+                if sg_.get("incremental") and b["step"] > 1:
+                    st["calcs_by_run_cells_incremental_later_step"] = st.get("calcs_by_run_cells_incremental_later_step", 0) + 1
+            if "temps" in sg_:
+                st["calcs_in_temperature_step_lists"] = st.get("calcs_in_temperature_step_lists", 0) + 1
         for p in cur_phases:
             nm = p["name"]
             if f"equi:{nm}" not in R:
@@ -312,9 +320,11 @@ def direct_oracle(spec, c):
             if f"si_{nm}" in R and abs(R[f"si_{nm}"] - si) > 1e-12 and not notin:
                 problems.append(f"block {b['k']}: -saturation_indices column of {nm} = {R['si_' + nm]!r} but SI() = {si!r}")
             if eng is not None and abs(eng["initial"] - initial) > 1e-12 * max(abs(initial), 1e-3) and "alt" not in p:
-                # staging bookkeeping of this oracle differs from the engine's: judge with the engine's number, say so
+                # the engine's start-of-step amount differs from this oracle's own bookkeeping (amount after the previous step /
+                # the definition): the phase is judged with the ORACLE's number; the disagreement itself is a tie failure
                 st["initial_mismatch"] = st.get("initial_mismatch", 0) + 1
-                initial = eng["initial"]
+                sstie.append(f"block {b['k']} (sim {sim % 100000} step {b['step']}): {nm}: engine's initial_moles {eng['initial']!r} but the amount at the "
+                             f"start of this step was {initial!r}")
             target = p["si"]
             if p.get("gas") and eng is not None:
                 target = eng["si_t"]      # the engine adds log10(fugacity coefficient) to the requested log10(pressure)
@@ -555,7 +565,7 @@ def run_corpus(ctx, exe):
             tf = [r for r in tf if r[2] != "ss-phase-copy"]
             two = st["twoss"] or [f"{r[2]} {r[3]}: SI = {r[5]!r} but log10(lambda*x) = {r[6]!r}" for r in shared]
         if st["sstie"]:
-            tf = tf + [("T", "-", "ss-parameters-from-input", m[:160], False, 0.0, 0.0) for m in st["sstie"][:3]]
+            tf = tf + [("T", "-", "engine-value-vs-input-derived", m[:160], False, 0.0, 0.0) for m in st["sstie"][:3]]
         replay = {"spec": spec, "db": data["db"], "input": text, "corpus": f.name}
         if problems or vf:
             ctx.violation("corpus case violates the property beyond its recorded finding: " +
@@ -689,7 +699,8 @@ def run(ctx):
         hist["calcs"] += st["calcs"]
         for k, v in st["phase_states"].items():
             hist["phase_states"][k] = hist["phase_states"].get(k, 0) + v
-        for k in ("ex", "su", "ss_ideal", "ss_binary", "dump_checked", "initial_mismatch", "calcs_after_redefinition", "calcs_in_later_run", "gas_phase_entries"):
+        for k in ("ex", "su", "ss_ideal", "ss_binary", "dump_checked", "initial_mismatch", "calcs_after_redefinition", "calcs_in_later_run", "gas_phase_entries",
+                  "calcs_by_run_cells", "calcs_by_run_cells_incremental_later_step", "calcs_in_temperature_step_lists"):
             hist[k] = hist.get(k, 0) + st.get(k, 0)
         hist["sys_vs_tot_max_rel"] = max(hist.get("sys_vs_tot_max_rel", 0.0), st.get("sys_vs_tot_max_rel", 0.0))
         if "local minimum" in c.get("warn", ""):
@@ -711,7 +722,7 @@ def run(ctx):
             if (shared or st["twoss"]) and not problems and not vf_main:
                 extra_cases.setdefault(KEY_TWOSS, []).append((i, st["twoss"] or [f"{r[2]} {r[3]}: SI = {r[5]!r} but log10(lambda*x) = {r[6]!r}" for r in shared]))
         if st["sstie"]:
-            tf = tf + [("T", "-", "ss-parameters-from-input", m[:160], False, 0.0, 0.0) for m in st["sstie"][:3]]
+            tf = tf + [("T", "-", "engine-value-vs-input-derived", m[:160], False, 0.0, 0.0) for m in st["sstie"][:3]]
         for k in ("ss_redefinitions", "ss_made_ideal_by_modify", "ss_param_checks"):
             hist[k] = hist.get(k, 0) + st.get(k, 0)
         if len(ctx.cov["samples"]) < 3 and st["calcs"] and any(r[0] == "V" and r[2].startswith("valid") for r in rl):
